@@ -38,7 +38,24 @@ fn show(t: &Token) -> String {
     }
 }
 
+/// `P:<hex of a literal>`: the literal goes through the parser and the printer of the exporters; the text it is
+/// printed as is returned (the model lexes both texts and compares the values)
+fn run_print(hexlit: &str) -> String {
+    let lit = match unhex(hexlit).and_then(|b| String::from_utf8(b).ok()) { Some(t) => t, None => return "BAD-CASE".into() };
+    let src = format!("static const float pv = {};\n", lit);
+    let mut sm = rssl::text::SourceManager::new();
+    let mut inc = MemFiles::single("main.rssl", &src);
+    let tokens = match rssl::preprocess::preprocess("main.rssl", &mut sm, &mut inc, &[]) { Ok(t) => t, Err(_) => return "REJECT lex".into() };
+    let tokens = rssl::preprocess::prepare_tokens(&tokens);
+    let tree = match catch(|| rssl::parser::parse(&tokens)) { Ok(Ok(t)) => t, Ok(Err(_)) => return "REJECT parse".into(), Err(_) => return "PANIC parse".into() };
+    let text = match catch(|| rssl_formatter::format(&tree, rssl_formatter::Target::Hlsl)) { Ok(Ok(t)) => t, Ok(Err(e)) => return format!("REJECT format {:?}", e), Err(_) => return "PANIC format".into() };
+    let line = text.lines().find(|l| l.contains("pv = ")).unwrap_or("");
+    let printed = match line.split_once("pv = ") { Some((_, r)) => r.trim_end().trim_end_matches(';').to_string(), None => return format!("UNREADABLE {}", hex(text.as_bytes())) };
+    format!("PRINT {}", hex(printed.as_bytes()))
+}
+
 pub fn run_line(line: &str) -> String {
+    if let Some(h) = line.trim().strip_prefix("P:") { return run_print(h); }
     let bytes = match unhex(line.trim()) {
         Some(b) => b,
         None => return "BAD-CASE".into(),
@@ -208,6 +225,16 @@ pub fn gen_cases(seed: u64, n: usize, _thorough: bool) -> Vec<String> {
         out.push(hex(gen_int(&mut rng).as_bytes()));
         out.push(hex(gen_float(&mut rng).as_bytes()));
         out.push(hex(gen_float(&mut rng).as_bytes()));
+    }
+    // "that value appears unchanged in the output": literals through the parser and the printer
+    for l in ["0.0", "1.0", "0.5", "1e30", "1e300", "12345678901234567890.0", "9223372036854775808.0", "9223372036854775807.0", "18446744073709551616.0", "4096.0", "1e-30", "1.5e-320",
+              "3.402823466e+38f", "1e38f", "16777217.0f", "0.1f", "65504.0h", "0.333h", "1e22", "1e23", "123456789012345678.0", "0.1", "2.5e15", "9007199254740993.0", "1.7976931348623157e308",
+              "0", "7", "2147483647", "2147483648", "4294967295", "4294967296", "18446744073709551615", "5u", "4294967295u", "0x7fffffff", "0xffffffffu", "017", "1.", ".5", "5.f"] {
+        out.push(format!("P:{}", hex(l.as_bytes())));
+    }
+    for _ in 0..n / 2 {
+        out.push(format!("P:{}", hex(gen_float(&mut rng).as_bytes())));
+        if rng.chance(1, 3) { out.push(format!("P:{}", hex(gen_int(&mut rng).as_bytes()))); }
     }
     // token soups with trivia
     for _ in 0..n / 2 {
